@@ -581,21 +581,29 @@ class XPathToken(Token[ta.XPathTokenType]):
                 case str() | AnyURI():
                     if not isinstance(op2, (str, UntypedAtomic, AnyURI)):
                         raise TypeError(msg.format(type(op1), type(op2)))
+                case UntypedAtomic():
+                    if isinstance(op2, UntypedAtomic):
+                        yield op1.value, op2.value  # two untyped values are compared as strings
+                        continue
                 case bool():
                     if isinstance(op2, (str, Integer, AbstractQName, AnyURI)):
                         raise TypeError(msg.format(type(op1), type(op2)))
                 case Integer():
                     if isinstance(op2, (str, AbstractQName, AnyURI, bool)):
                         raise TypeError(msg.format(type(op1), type(op2)))
+                    elif isinstance(op2, float):
+                        yield get_double(op1), op2  # numeric promotion to xs:double
+                        continue
                 case float():
-                    if isinstance(op2, decimal.Decimal):
-                        yield op1, float(op2)
+                    if isinstance(op2, decimal.Decimal) or \
+                            isinstance(op2, Integer) and not isinstance(op2, bool):
+                        yield op1, get_double(op2)
                         continue
                     elif isinstance(op2, (str, AbstractQName, AnyURI, bool)):
                         raise TypeError(msg.format(type(op1), type(op2)))
                 case decimal.Decimal():
                     if isinstance(op2, float):
-                        yield float(op1), op2
+                        yield get_double(op1), op2
                         continue
                     elif isinstance(op2, (str, AbstractQName, AnyURI, bool)):
                         raise TypeError(msg.format(type(op1), type(op2)))
